@@ -56,6 +56,7 @@ type mockMQ struct {
 	connected    bool
 	closedH      func(error)
 	closeGate    chan struct{} // non-nil: Close blocks until it is closed
+	closeHang    chan struct{} // non-nil: Close closes the connection and then blocks until this is closed
 	closeEntered chan struct{}
 	dupSub       string
 }
@@ -74,6 +75,18 @@ func (m *mockMQ) IsClosed() bool {
 	return !m.connected
 }
 func (m *mockMQ) Close() {
+	m.mu.Lock()
+	hang := m.closeHang
+	if hang != nil {
+		m.connected = false
+	}
+	m.mu.Unlock()
+	if hang != nil {
+		// the connection is closed, but Close does not return (the real client waits for its
+		// listener goroutine here): Stop has to bound this with its own timeout
+		<-hang
+		return
+	}
 	if g := m.closeGate; g != nil {
 		// the harness holds Stop between its two locked sections
 		m.closeEntered <- struct{}{}
@@ -140,6 +153,18 @@ func (m *mockMQ) logLen() int {
 	m.mu.Lock()
 	defer m.mu.Unlock()
 	return len(m.log)
+}
+
+// logHasReq: a request was handed to the messaging system since the log was last drained.
+func (m *mockMQ) logHasReq() bool {
+	m.mu.Lock()
+	defer m.mu.Unlock()
+	for _, l := range m.log {
+		if l.kind == "req" {
+			return true
+		}
+	}
+	return false
 }
 
 func (m *mockMQ) lastID() int {
